@@ -930,6 +930,14 @@ int main(int argc, char **argv)
 }
 """
 
+
+def thread_exec_order_shape(bad):
+    """the shape of the open finding F-C04-THREAD-EXEC-ORDER: every complaint is about the ORDER of whole buffers of
+    the image after exec (records present but reordered / timestamps going back), nothing is torn or foreign"""
+    ok = ("image after exec", "inverted time", "timestamps go backwards")
+    return all(any(k in b for k in ok) for b in bad)
+
+
 EXEC_SCEN = {1: "exec from the initial task", 2: "fork, exec in the child", 3: "exec from a non-initial thread",
              4: "fork, exec from a thread of the child", 5: "fork, _exit in the child", 6: "fork, SIGKILL in the child",
              7: "fork, abort in the child", 8: "exec in a grandchild",
@@ -1580,6 +1588,16 @@ def _run(ctx):
             ex2["shm_files_left_behind"] += left
             bs = ex2["by_scenario"].setdefault(EXEC_SCEN[scen], {"runs": 0, "failures": 0})
             bs["runs"] += 1
+            if bad and scen in (3, 4) and thread_exec_order_shape(bad):
+                # open finding F-C04-THREAD-EXEC-ORDER (timing dependent): after exec from a non-initial thread the
+                # new image runs under the old leader's tid; flush_old_shmem() can match the new image's own first
+                # buffer, flush it early and drop it from the list: buffers of the new image out of order
+                ent = next((f for f in C.known_findings("C04") if f["id"] == "F-C04-THREAD-EXEC-ORDER" and f["status"] == "open"), None)
+                bs["known_thread_exec_order"] = bs.get("known_thread_exec_order", 0) + 1
+                if ent is not None:
+                    C.known(ctx, ent, "F-C04-THREAD-EXEC-ORDER exec from a non-initial thread: the buffers of the image after exec "
+                                      "reach <tid>.dat out of order (timing dependent; %s)" % bad[0][:160])
+                    bad = None
             if bad:
                 bs["failures"] += 1
                 ex2["failures"] += 1
